@@ -654,7 +654,8 @@ def m_optdec_neg_zero_unsigned(d, params):
     p = _pair(d)
     if not p or not d["kind"].startswith("error-or-not-differs") or not re.search(rb"-0(?![0-9.eE])", _doc(d)):
         return False
-    if not re.search(r"\b(u8|u16|u32|u64|uint|uptr)\b", _typ(d)):
+    # re-probed on HEAD: only elements of a slice whose element kind is uint8 (optdec's byte-slice path) accept it
+    if not re.search(r"\(sl u8\)|\bbytes\b", _typ(d)):
         return False
     return p[0].get("sonic") == "mismatch" and p[1].get("sonic") == "ok"
 
